@@ -826,8 +826,8 @@ func (g *Gen) execInstr(in ssa.Instruction, st *State) {
 			g.boundsCheck(idx.T, g.idxLit(t.Len()), st, "array index")
 			g.setVal(x, Val{T: fmt.Sprintf("(select %s %s)", c.T, idx.T), S: g.sortOf(t.Elem()), G: t.Elem()})
 		case *types.Basic: // string
-			g.boundsCheck(idx.T, fmt.Sprintf("(str.len %s)", c.T), st, "string index "+g.textOf(x.X)+"["+g.textOf(x.Index)+"]")
-			r := Val{T: fmt.Sprintf("(str.at %s %s)", c.T, idx.T), S: g.byteSort(), G: types.Typ[types.Uint8]}
+			g.boundsCheck(idx.T, fmt.Sprintf("(gstr.len %s)", c.T), st, "string index "+g.textOf(x.X)+"["+g.textOf(x.Index)+"]")
+			r := Val{T: fmt.Sprintf("(gstr.at %s %s)", c.T, idx.T), S: g.byteSort(), G: types.Typ[types.Uint8]}
 			g.setVal(x, r)
 			g.assume("true", g.wfFact(g.vals[x], nil))
 		default:
@@ -1128,7 +1128,7 @@ func (g *Gen) execSlice(x *ssa.Slice, st *State) {
 		g.setVal(x, Val{T: r, S: sSlice, G: x.Type()})
 	case *types.Basic: // string
 		s := g.val(x.X, st)
-		ln := fmt.Sprintf("(str.len %s)", s.T)
+		ln := fmt.Sprintf("(gstr.len %s)", s.T)
 		if x.High != nil {
 			hi = g.toIdx(g.val(x.High, st), x.High.Type()).T
 		} else {
@@ -1137,12 +1137,12 @@ func (g *Gen) execSlice(x *ssa.Slice, st *State) {
 		goal := sAnd(g.idxLe(g.idxLit(0), lo), g.idxLe(lo, hi), g.idxLe(hi, ln))
 		g.oblige("bounds", "C", "string slice bounds: "+g.textOf(x.X)+"[lo:hi]", st.reach, goal, true)
 		g.needStrSub()
-		r := Val{T: fmt.Sprintf("(str.sub %s %s %s)", s.T, lo, hi), S: sStr, G: x.Type()}
+		r := Val{T: fmt.Sprintf("(gstr.sub %s %s %s)", s.T, lo, hi), S: sStr, G: x.Type()}
 		g.setVal(x, r)
 		rv := g.vals[x]
 		// facts: length and characters
-		g.assume(st.reach, sImp(goal, fmt.Sprintf("(= (str.len %s) %s)", rv.T, g.idxSub(hi, lo))))
-		g.assume("true", fmt.Sprintf("(forall ((k %s)) (! (=> (and %s %s) (= (str.at %s k) (str.at %s %s))) :pattern ((str.at %s k))))",
+		g.assume(st.reach, sImp(goal, fmt.Sprintf("(= (gstr.len %s) %s)", rv.T, g.idxSub(hi, lo))))
+		g.assume("true", fmt.Sprintf("(forall ((k %s)) (! (=> (and %s %s) (= (gstr.at %s k) (gstr.at %s %s))) :pattern ((gstr.at %s k))))",
 			g.idxSort().SMT(), g.idxLe(g.idxLit(0), "k"), g.idxLt("k", g.idxSub(hi, lo)), rv.T, s.T, g.idxAdd(lo, "k"), rv.T))
 		g.assume("true", sImp(sAnd(sEq(lo, g.idxLit(0)), sEq(hi, ln)), sEq(rv.T, s.T)))
 	case *types.Pointer: // *array
@@ -1174,7 +1174,7 @@ func (g *Gen) execSlice(x *ssa.Slice, st *State) {
 }
 
 func (g *Gen) needStrSub() {
-	g.declareFun("str.sub", fmt.Sprintf("(Str %s %s) Str", g.idxSort().SMT(), g.idxSort().SMT()))
+	g.declareFun("gstr.sub", fmt.Sprintf("(Str %s %s) Str", g.idxSort().SMT(), g.idxSort().SMT()))
 }
 
 func (g *Gen) execMakeSlice(x *ssa.MakeSlice, st *State) {
@@ -1247,8 +1247,8 @@ func (g *Gen) execLookup(x *ssa.Lookup, st *State) {
 	case *types.Basic:
 		s := g.val(x.X, st)
 		idx := g.toIdx(g.val(x.Index, st), x.Index.Type())
-		g.boundsCheck(idx.T, fmt.Sprintf("(str.len %s)", s.T), st, "string index")
-		g.setVal(x, Val{T: fmt.Sprintf("(str.at %s %s)", s.T, idx.T), S: g.byteSort(), G: types.Typ[types.Uint8]})
+		g.boundsCheck(idx.T, fmt.Sprintf("(gstr.len %s)", s.T), st, "string index")
+		g.setVal(x, Val{T: fmt.Sprintf("(gstr.at %s %s)", s.T, idx.T), S: g.byteSort(), G: types.Typ[types.Uint8]})
 	default:
 		g.errorf("Lookup on %s", x.X.Type())
 	}
@@ -1412,7 +1412,12 @@ func (g *Gen) execReturn(x *ssa.Return, st *State) {
 	env.results = results
 	env.atReturn = true
 	for _, c := range g.spec.Ensures {
-		g.oblige(c.Label, "A", "postcondition: "+c.Src, st.reach, env.evalBool(c.E), false)
+		goal := env.evalBool(c.E)
+		g.oblige(c.Label, "A", "postcondition: "+c.Src, st.reach, goal, false)
+		if ex, ok := g.W.kfExcept[g.key+"#"+c.Label]; ok {
+			// known finding with a recorded failing class: the clause must still hold outside that class
+			g.oblige(c.Label+".outside", "A", "postcondition holds outside the recorded known-finding class ("+ex.String()+"): "+c.Src, st.reach, sOr(env.evalBool(ex), goal), false)
+		}
 	}
 	// on_error unchanged
 	if len(g.spec.OnErrorUnchanged) > 0 {
